@@ -140,7 +140,10 @@ public:
 
 static void* (*orig_realloc)(void*, size_t);
 static void (*orig_free)(void*);
+static bool g_fail_realloc_once = false;     // fault injection: the next platform realloc returns NULL (the block must stay valid, tracked and unreported)
+static uint64_t g_realloc_failures_injected = 0;
 static void* seam_realloc(void* mem, size_t n) {
+    if (g_fail_realloc_once) { g_fail_realloc_once = false; g_realloc_failures_injected++; return nullptr; }
     int i = (mem && g_ntab) ? tab_find(mem) : -1;
     void* np = raw_realloc(mem, n);
     if (np && i >= 0) { g_tab[i].base = (char*) np; g_tab[i].size = n; }
@@ -476,6 +479,7 @@ struct Exec {
         int uf0 = g_unknown_free;
         rec.begin_op();
         char* np = nullptr;
+        if (o.realloc_ && o.flag) g_fail_realloc_once = true;
         if (s.global) {
             if (o.realloc_) { g_expect_alloc = true; np = (char*) cpputest_realloc_location(a, o.size, FILE_F, 7); g_expect_alloc = false; }
             else global_release(famR, o.rep, a, mb ? mb->size : 0);
@@ -484,6 +488,7 @@ struct Exec {
             if (o.realloc_) { g_expect_alloc = true; np = det.reallocMemory(A, a, o.size, FILE_F, 7, sepflag); g_expect_alloc = false; }
             else det.deallocMemory(A, a, FILE_F, 7, sepflag);
         }
+        g_fail_realloc_once = false;
         g_w.active = false;
         r.calls = rec.op_calls; r.got = rec.op_calls ? (uint8_t) rec.first_cat : (uint8_t) C_NONE;
         memcpy(r.line, rec.first_line, sizeof r.line);
@@ -543,7 +548,7 @@ static std::string describe(const Scen& s) {
         switch (o.k) {
         case OP_ALLOC: t = "alloc b" + std::to_string(o.blk) + " " + FAM_NAME[o.fam] + " " + (s.global ? AENTRY_NAME[o.fam % 3][o.rep % N_AENTRY[o.fam % 3]] : KIND_NAME[o.rep % NKIND]) + " size=" + std::to_string(o.size) + (s.global ? "" : (o.sep ? " separate-node" : " inline-node")); break;
         case OP_WRITE: t = std::string("write b") + std::to_string(o.blk) + (o.wkind == W_USER ? " user+" : o.wkind == W_GUARD ? " guard+" : o.wkind == W_PAD ? " padding+" : " fill ") + (o.wkind == W_FILL ? "" : std::to_string(o.off)) + " " + valstr(o.val); break;
-        case OP_RELEASE: t = std::string(o.realloc_ ? "realloc(" + std::to_string(o.size) + ") " : "release ") + ADDR_NAME[o.addr % NADDR] + (o.addr == A_BLOCK || o.addr == A_NODE ? " b" + std::to_string(o.blk) + (o.off ? (o.off > 0 ? "+" : "") + std::to_string(o.off) : "") : "") + " via " + (s.global ? (o.realloc_ ? "cpputest_realloc" : RENTRY_NAME[o.fam % 3][o.rep % N_RENTRY[o.fam % 3]]) : std::string(REL_NAME[o.fam]) + "/" + KIND_NAME[o.rep % NKIND]); break;
+        case OP_RELEASE: t = std::string(o.realloc_ ? std::string(o.flag ? "failing-" : "") + "realloc(" + std::to_string(o.size) + ") " : "release ") + ADDR_NAME[o.addr % NADDR] + (o.addr == A_BLOCK || o.addr == A_NODE ? " b" + std::to_string(o.blk) + (o.off ? (o.off > 0 ? "+" : "") + std::to_string(o.off) : "") : "") + " via " + (s.global ? (o.realloc_ ? "cpputest_realloc" : RENTRY_NAME[o.fam % 3][o.rep % N_RENTRY[o.fam % 3]]) : std::string(REL_NAME[o.fam]) + "/" + KIND_NAME[o.rep % NKIND]); break;
         case OP_CHECKING: t = o.flag ? "type-checking on" : "type-checking off"; break;
         case OP_PERIOD: t = "period " + std::to_string(o.flag); break;
         case OP_SETCUR: t = std::string("set current ") + FAM_NAME[o.fam] + " allocator to " + KIND_NAME[o.rep % NKIND]; break;
@@ -669,7 +674,7 @@ static void execute(vf::Ctx& c, const Scen& s) {
     CNT("guard_after_alloc_is_BAS", st.guard_is_BAS); if (st.guard_not_BAS) CNT("guard_after_alloc_is_not_BAS", st.guard_not_BAS);
     if (st.alloc_failed) CNT("allocations_failed", st.alloc_failed);
     if (st.skipped_crosslayout) CNT("skipped_cross_layout_release_into_default_malloc_allocator", st.skipped_crosslayout);
-    CNT("current_allocator_switches", st.setcur); CNT("type_checking_toggles", st.chk_toggles); CNT("period_noise_ops", st.period_ops); CNT("reallocs_that_moved", st.reallocs_moved);
+    CNT("current_allocator_switches", st.setcur); CNT("type_checking_toggles", st.chk_toggles); CNT("period_noise_ops", st.period_ops); CNT("reallocs_that_moved", st.reallocs_moved); CNT("platform_realloc_failures_injected", g_realloc_failures_injected); g_realloc_failures_injected = 0;
     if (s.ts) CNT("scenarios_threadsafe_overloads", 1);
     if (s.global) CNT("scenarios_global_mode", 1); else CNT("scenarios_private_mode", 1);
     cnt_flush(c);
@@ -923,8 +928,10 @@ static void sec_histories(vf::Ctx& c) {
                 int f = s.global ? F_MAL : (r.chance(70) ? g[(size_t) b].fam : (int) r.below((uint64_t) nfam));
                 int k = s.global ? 0 : pick_kind(f);
                 size_t ns = r.chance(85) ? (size_t) r.below(80) : (size_t) r.range(80, 5000);
-                s.ops.push_back(opRealloc(b, f, k, ns));
-                if (g[(size_t) b].live) { g[(size_t) b].fam = f; g[(size_t) b].kind = s.global ? curk[F_MAL] : k; g[(size_t) b].size = ns; if (s.global) g[(size_t) b].sep = true; }
+                Op ro = opRealloc(b, f, k, ns);
+                if (r.chance(20)) { ro.flag = 1; s.ops.push_back(ro); }      // the platform realloc will fail: nothing changes for the block
+                else s.ops.push_back(ro);
+                if (!ro.flag && g[(size_t) b].live) { g[(size_t) b].fam = f; g[(size_t) b].kind = s.global ? curk[F_MAL] : k; g[(size_t) b].size = ns; if (s.global) g[(size_t) b].sep = true; }
             }
         }
         else if (w < 96) s.ops.push_back(opChk(r.chance(50)));
